@@ -122,6 +122,8 @@ type Sched struct {
 	onDeadlock  func()
 	fast        bool
 	enBuf       []trans
+	slow        map[int]bool
+	slowFrom    int
 
 	ticks        int
 	lastTickStep int
@@ -150,6 +152,12 @@ type Config struct {
 	// OnDeadlock runs (on the thread that detected it, before anything is
 	// killed) when no transition is enabled; it must not call shim operations.
 	OnDeadlock func()
+	// Slow: ids of threads that are demoted: their transitions are ordered after
+	// everybody else's, so by default they run only when nothing else can
+	// (a "slow" goroutine; one high-level decision instead of many deviations).
+	// SlowFrom: the demotion starts once this many transitions were executed.
+	Slow     map[int]bool
+	SlowFrom int
 	// Fast: default schedule only, no Trace recorded: the first enabled
 	// transition in canonical order is taken without computing the others
 	// (same schedule as an empty Prefix; for deterministic single executions).
@@ -161,7 +169,7 @@ type Config struct {
 func Run(cfg Config, body func()) *Sched {
 	s := &Sched{prefix: cfg.Prefix, ack: make(chan struct{}), finished: make(chan struct{}),
 		closed: map[uintptr]bool{}, exited: make(chan struct{}, 4096),
-		MaxTicks: cfg.MaxTicks, EarlyTimers: cfg.EarlyTimers, MaxSteps: cfg.MaxSteps, Verbose: cfg.Verbose, onDeadlock: cfg.OnDeadlock, fast: cfg.Fast && len(cfg.Prefix) == 0}
+		MaxTicks: cfg.MaxTicks, EarlyTimers: cfg.EarlyTimers, MaxSteps: cfg.MaxSteps, Verbose: cfg.Verbose, onDeadlock: cfg.OnDeadlock, fast: cfg.Fast && len(cfg.Prefix) == 0 && len(cfg.Slow) == 0, slow: cfg.Slow, slowFrom: cfg.SlowFrom}
 	if s.MaxTicks == 0 {
 		s.MaxTicks = 4
 	}
@@ -444,6 +452,23 @@ func (s *Sched) schedule(t *Thread, exiting bool) {
 				en = s.enabledOf(o, en)
 				if s.fast && len(en) > 0 {
 					break
+				}
+			}
+		}
+		if len(s.slow) > 0 && s.Steps >= s.slowFrom && len(en) > 1 {
+			// stable partition: transitions of demoted threads last
+			var a, b []trans
+			for _, tr := range en {
+				if tr.t != nil && s.slow[tr.t.id] {
+					b = append(b, tr)
+				} else {
+					a = append(a, tr)
+				}
+			}
+			if len(a) > 0 && len(b) > 0 {
+				en = append(a, b...)
+				if s.slow[t.id] {
+					curEnabled = false // leaving a demoted thread is the default here, not a pre-emption
 				}
 			}
 		}
